@@ -128,6 +128,5 @@ ScnOnlyA == {ScnA}
 ScnOnlyD == {ScnD}
 TraceBoot == {ScnA}
 NoExplore == ngen < 0
-ScnOnlyQ == {ScnQ}
 ViewCore == core
 =============================================================================
